@@ -78,6 +78,10 @@ def lentil_call(oracle, what=""):
         yield
     except (Violation, Skip):
         raise
+    except MemoryError:
+        # the per-process address-space cap was hit (a generated case describing a gigantic grid): inconclusive,
+        # counted in the evidence under skipped["memory_cap"], never a violation
+        raise Skip("memory_cap") from None
     except Exception as e:  # noqa: BLE001 - deliberate: classify by origin
         tb = traceback.extract_tb(e.__traceback__)
         inner = ""
@@ -255,6 +259,9 @@ def _run_hyp(sc, tier, seed, shard, nshards):
         except Skip as s:
             ctx.skips[s.reason] += 1
             return
+        except MemoryError:
+            ctx.skips["memory_cap"] += 1
+            return
         except Violation as v:
             ctx.fail(v, case)
             if state["first_fail_t"] is None:
@@ -319,8 +326,20 @@ def _run_enum(sc, tier, seed, shard, nshards):
     return out
 
 
+def apply_memory_cap():
+    """Cap the address space of this process (default 12 GB, VERIF_MEM_GB) so that one generated case cannot take
+    the machine down: the allocation fails with MemoryError instead, which is counted as an inconclusive case."""
+    import resource
+    cap = int(float(os.environ.get("VERIF_MEM_GB", "12")) * 2**30)
+    soft, hard = resource.getrlimit(resource.RLIMIT_AS)
+    if hard != resource.RLIM_INFINITY:
+        cap = min(cap, hard)
+    resource.setrlimit(resource.RLIMIT_AS, (cap, hard))
+
+
 def _worker(args):
     prop, name, tier, seed, shard, nshards = args
+    apply_memory_cap()
     load_property(prop)
     sc = next(s for s in REGISTRY[prop] if s.name == name)
     fn = _run_hyp if sc.kind == "hyp" else _run_enum
@@ -491,8 +510,16 @@ def run_property(prop, tier, seed, only=None, shards=None):
         results = [_worker(j) for j in jobs]
     else:
         import multiprocessing as mp
-        with mp.get_context("fork").Pool(min(nproc, len(jobs))) as pool:
-            results = pool.map(_worker, jobs, chunksize=1)
+        from concurrent.futures import ProcessPoolExecutor
+        from concurrent.futures.process import BrokenProcessPool
+        # an executor (not mp.Pool): a worker that dies abruptly breaks the pool and is reported, instead of
+        # leaving the run waiting for a result that never comes
+        try:
+            with ProcessPoolExecutor(min(nproc, len(jobs)), mp_context=mp.get_context("fork")) as pool:
+                results = list(pool.map(_worker, jobs))
+        except BrokenProcessPool as e:
+            print(f"HARNESS-ERROR property={prop}: a worker process died ({e}); no verdict")
+            return 2
 
     per_sub = {}
     for r in results:
